@@ -973,21 +973,6 @@ impl<'a> HpoTerm<'a> {
     /// # Panics
     /// TODO    
     pub fn path_to_term(&self, other: &HpoTerm) -> Option<Vec<HpoTermId>> {
-        if other.parent_of(self) {
-            return self.path_to_ancestor(other);
-        }
-        if self.parent_of(other) {
-            return other.path_to_ancestor(self).map(|terms| {
-                terms
-                    .iter()
-                    .rev()
-                    .skip(1)
-                    .chain(std::iter::once(&other.id()))
-                    .copied()
-                    .collect()
-            });
-        }
-
         self.all_common_ancestors(other)
             .iter()
             .map(|ancestor| {
@@ -1002,20 +987,22 @@ impl<'a> HpoTerm<'a> {
             })
             .min_by_key(|tuple| tuple.1)
             .map(|min| {
-                self.path_to_ancestor(&min.0)
-                    .expect("self must have a path to its ancestor")
-                    .iter()
-                    .chain(
-                        other
-                            .path_to_ancestor(&min.0)
-                            .expect("other must have a path to its ancestor")
-                            .iter()
-                            .rev()
-                            .skip(1),
-                    )
-                    .chain(std::iter::once(&other.id()))
-                    .copied()
-                    .collect()
+                let mut path = self
+                    .path_to_ancestor(&min.0)
+                    .expect("self must have a path to its ancestor");
+                path.extend(
+                    other
+                        .path_to_ancestor(&min.0)
+                        .expect("other must have a path to its ancestor")
+                        .iter()
+                        .rev()
+                        .skip(1),
+                );
+                // `other` ends the path, unless the way up already ends there
+                if path.last() != Some(&other.id()) {
+                    path.push(other.id());
+                }
+                path
             })
     }
 
